@@ -104,6 +104,15 @@ func (s sweepSpec) programs(shard, n int, visit func(stratum string, p Prog)) (t
 		}
 	}
 	if s.HdrOnly {
+		// flag lines in every spelling the parser may accept: whatever compiles must print lower-case i/s only
+		for _, f := range []string{"I", "S", "Is", "iS", "SI", "si", "ii", "sis", "i s", "m", "U"} {
+			for _, e := range [][]string{{"a", "b", "c"}, {"a", ".", "b"}} {
+				if idx%n == shard {
+					visit("H", Prog{Flags: f, Lines: [][]string{e}})
+				}
+				idx++
+			}
+		}
 		bodies := [][][]string{nil, {{"##!> cmdline unix"}, {"##!<"}}, {{"##!> assemble"}, {"##!<"}}, {{"##! comment"}, {""}}}
 		for _, e := range one {
 			x := strings.Join(e, "")
